@@ -73,6 +73,7 @@ type FuncContract struct {
 	Uses       []string // math lemmas made available (as quantified axioms) in this function's VC
 	MayPanic   bool   // explicit panic(...) statements are not obligations
 	NoFrame    bool   // no frame: may write anything reachable from its arguments
+	OwnWrites  bool   // frame obligations only for the function's own stores; what its callees write is not checked
 	Extern     bool   // assumed contract on a dependency (typed parameters in MathParams)
 	ExternName string // qualified name of the dependency function, e.g. container/heap.Fix
 }
@@ -138,7 +139,7 @@ type ContractFile struct {
 var clauseKeywords = map[string]bool{
 	"serves": true, "requires": true, "ensures": true, "modifies": true, "nowrap": true,
 	"arith": true, "loop": true, "invariant": true, "ghost": true, "trusted": true,
-	"atcall": true, "uses": true, "pattern": true, "opaque": true, "loopmodifies": true, "nopanic": true, "nilable": true, "mutates": true, "linear": true, "ghostvar": true, "oncall": true, "assume-invariant": true, "maypanic": true, "noframe": true,
+	"atcall": true, "uses": true, "pattern": true, "opaque": true, "loopmodifies": true, "nopanic": true, "nilable": true, "mutates": true, "linear": true, "ghostvar": true, "oncall": true, "assume-invariant": true, "maypanic": true, "noframe": true, "ownwrites": true,
 }
 
 func ParseContractFile(path, pkgPath string) (*ContractFile, error) {
@@ -374,6 +375,12 @@ func ParseContractText(path, pkgPath, text string) (*ContractFile, error) {
 				// the function may write anything it can reach: no frame obligations inside it, and
 				// callers treat everything reachable from the arguments as overwritten
 				curF.NoFrame = true
+				contTarget = nil
+			case "ownwrites":
+				// the function's own stores (assignments, map updates, delete, append, copy) must stay
+				// within its modifies clause; what callees write is not checked, and callers treat
+				// everything reachable from the arguments as overwritten
+				curF.OwnWrites = true
 				contTarget = nil
 			case "maypanic":
 				// explicit panic statements are documented behaviour of this function: they end
